@@ -1380,7 +1380,7 @@ static void obs_budget(const char *what)
 }
 static void obs_deadlock(const char *what)
 {
-	viol("SIM.deadlock", "%s", what);
+	viol(strstr(what, "releases a lock") ? "ANY.lock_misuse" : "SIM.deadlock", "%s", what);
 	ext_deadlock(what);
 	finish(1);
 }
